@@ -154,6 +154,24 @@ def check(rep, F, tier, replay=None):
         bad = [c.to for c in F.calls(pk) if c.to and ("unwrap" in c.to or "expect" in c.to)]
         if "Result<" not in ret or bad:
             rep.violation("DERIVE", "pk-error", "public derivation no longer returns the dependency's error for hardened indices (%s)" % (bad or ret), {})
+    # DERIVE-total: the wrappers put no index range of their own in front of the dependency's derivation
+    rep.rule("DERIVE-total", "the derivation wrappers (derive_sk_ed25519 / derive_pk_ed25519, Bip32PrivateKey::derive / Bip32PublicKey::derive) reach the dependency's derive for every index the dependency accepts: a comparison of the index with a constant that dominates the call must leave all soft indices 0 ..= 0x7FFFFFFF (public side) resp. every u32 (secret side) - an early `index >= 0x7FFFFFFF` refuses the last soft index, for which private derivation followed by to_public() still works, so soft derivation no longer commutes with taking the public key")
+    from ruleutil import gate_limit as _glim, gate_min as _gmin
+    for key_, callee_, need_hi in (("chain_crypto::derive::derive_pk_ed25519", "XPub::derive", 0x7FFFFFFF), ("chain_crypto::derive::derive_sk_ed25519", "XPrv::derive", 0xFFFFFFFF),
+                                   ("Bip32PublicKey::derive", "derive_pk_ed25519", 0x7FFFFFFF), ("Bip32PrivateKey::derive", "derive_sk_ed25519", 0xFFFFFFFF)):
+        fid_ = find_fn(rep, F, key_)
+        if not fid_:
+            continue
+        cs_ = [c for c in F.calls(fid_) if (c.to or "").endswith(callee_)]
+        if not cs_:
+            rep.lost("%s no longer calls %s" % (key_, callee_))
+            continue
+        for c in cs_:
+            rep.inst("DERIVE-total")
+            hi_ = _glim(F, fid_, c.bb)[0]
+            lo_ = _gmin(F, fid_, c.bb)[0]
+            if (hi_ is not None and hi_ < need_hi) or (lo_ is not None and lo_ > 0):
+                rep.violation("DERIVE-total", "%s|%s..%s" % (key_, lo_ if lo_ is not None else 0, hi_ if hi_ is not None else "max"), "%s reaches %s only for indices %s ..= %s: index %s, which the dependency derives, is refused by the wrapper" % (key_, callee_, lo_ if lo_ is not None else 0, hi_ if hi_ is not None else "u32::MAX", ("0x%X" % (hi_ + 1)) if hi_ is not None else lo_ - 1), {})
     # K-emip3
     rep.rule("K-emip3", "EMIP-3 container constants")
     for name, want in EMIP3.items():
